@@ -48,10 +48,11 @@ const (
 	rNil                      // lookup returned nil
 	rTrue                     // IsClosed
 	rFalse
-	rPanic // the call panicked: the operation never returned
+	rPanic  // the call panicked: the operation never returned
+	rResErr // Close returned the error of a resource whose release failed (same effect as a plain return)
 )
 
-var resName = [...]string{"done", "ok", "errNameInUse", "errClosed", "errOther", "mod", "nil", "true", "false", "PANIC"}
+var resName = [...]string{"done", "ok", "errNameInUse", "errClosed", "errOther", "mod", "nil", "true", "false", "PANIC", "errResource"}
 
 const anon = 2 // name index of the anonymous name ""
 
@@ -68,7 +69,10 @@ type lop struct {
 	Ret    int64   `json:"ret"` // 0 = never returned (panic)
 	Err    string  `json:"err,omitempty"`
 	X      uint32  `json:"exit_code,omitempty"`
+	F      int     `json:"resource,omitempty"` // instantiate: 1 = holds an open file, 2 = holds an open file whose Close fails
 }
+
+var resMark = [...]string{"", "+file", "+failing-file"}
 
 func (o *lop) fill() { o.K = kindShort[o.Kind]; o.R = resName[o.Res] }
 
@@ -82,9 +86,9 @@ func nameStr(n int) string {
 func (o lop) String() string {
 	switch {
 	case o.Kind.isInst():
-		s := fmt.Sprintf("%s(%s)=%s", kindShort[o.Kind], nameStr(o.Name), resName[o.Res])
+		s := fmt.Sprintf("%s(%s%s)=%s", kindShort[o.Kind], nameStr(o.Name), resMark[o.F], resName[o.Res])
 		if o.Res == rOK {
-			s = fmt.Sprintf("%s(%s)=m%d", kindShort[o.Kind], nameStr(o.Name), o.ID)
+			s = fmt.Sprintf("%s(%s%s)=m%d", kindShort[o.Kind], nameStr(o.Name), resMark[o.F], o.ID)
 		}
 		return s
 	case o.Kind == kLookup:
